@@ -384,7 +384,7 @@ reg(Check("C10", "model_checking",
           "two sessions: attach / leave 'me', disconnect + reconnect, mute / unmute the partner, attach / leave the p2p topic and the group, a 20 s "
           "clock tick which unloads idle topics and fires deferred notifications); after every step each attached session's last belief about its "
           "partner and about the group is compared with the truth, nothing reaches the stranger or a muted party. acl / p2p: the online counter of "
-          "every user on the topic equals the number of attached sessions on every transition of those searches. notifications: BFS to depth 3 / 4 "
+          "every user on the topic equals the number of attached sessions on every transition of those searches. notifications: BFS to depth 4 / 7 "
           "over 18 operations (publish, read / recv / kp notes, hard / soft delete, description and tag changes, mute, un-mute, ban, grant, evict, "
           "leave, attach, re-subscribe, reload) on a group watched from 'me' by a plain member, a muted member, a member without R, a stranger, a "
           "removed and a banned user: every {pres} about the group reaching a 'me' session needs a live subscription with P before or after the "
